@@ -308,6 +308,7 @@ def Val.Wf : Val → Prop
   | .b bs => bs.length < 18446744073709551616
   | .x _ => True
   | .e => False              -- its empty payload is a frame like any other, but no decoder gives the value back
+  | .t _ => False            -- its decoder reads the number and leaves the padding: the reader delivers `u n`, not `t n`
 
 theorem u64_headW (n : Nat) (h : n < 18446744073709551616) :
     Enc.u64 n = headW 0 (prefWidth n) n := by
@@ -492,6 +493,7 @@ theorem valCodec_roundtrip (v : Val) (p : Bytes) (hwf : Val.Wf v) (h : valCodec.
     simp [valCodec, Enc.bytes, this]
   | x part => simp [valCodec] at h
   | e => exact hwf.elim
+  | t n => exact hwf.elim
 
 /-- non-vacuity: a two-frame stream, delivered one byte at a time with interruptions, read
     with `max_len` exactly the larger payload. -/
